@@ -65,6 +65,12 @@ CLAIMED = {
          "closed-form cell (|w dt|^2 >= 4 eps, any dt of either sign) exactly the flow at t = dt with the quaternion norm preserved; dt = 0 is the "
          "identity. Uniqueness of the ODE solution, the semigroup law as a theorem and Taylor cells: numeric search only (named in evidence).",
          "DESIGN.md §2 C08", TECH_T),
+ "C15": ("proof", "Lean 4 theorems over the regenerated controller programs: rate-controller integrator within +-i_max after one step from ANY "
+         "previous state and, by induction over the step list, after any non-empty sequence; filter coefficient strictly in (0,1); control law "
+         "structure; acro stick map linear and bounded; velocity mode: yaw set-point in [-pi,pi] (lemma on C remainder + double(pi) <= pi), position "
+         "set-point within 2 m of the vehicle (norm saturation lemma), reset puts it on the vehicle; attitude law is exactly zero for q_r = q and "
+         "q_r = -q. Position-controller bound, auto-level map and 'reaches the reference': numeric search only (named in evidence).",
+         "DESIGN.md §2 C15", TECH_T),
 }
 checks = []
 for pid, (cat, text, ref, tech) in CLAIMED.items():
